@@ -20,7 +20,7 @@
 (* map and counter survive), that the predicate sub-tree is shared by all  *)
 (* candidates of one filter, that function arguments are cloned per call.  *)
 (***************************************************************************)
-EXTENDS XQueryVM
+EXTENDS XQueryVM, XHash
 
 \* ---- query trees ---------------------------------------------------------
 QFilter(in, pred) == [t |-> "filter", in |-> in, pred |-> pred]
@@ -30,6 +30,7 @@ QConst(v)         == [t |-> "const", v |-> v]
 QNot(arg)         == [t |-> "not", arg |-> arg]
 QLogical(op, l, r) == [t |-> "logical", op |-> op, l |-> l, r |-> r]
 QBoolean(isOr, l, r) == [t |-> "boolean", isOr |-> isOr, l |-> l, r |-> r]
+QUnion(l, r)      == [t |-> "union", l |-> l, r |-> r]
 QNumeric(op, l, r) == [t |-> "numeric", op |-> op, l |-> l, r |-> r]
 \* position() / last(): a functionQuery whose Input is the builder's "first input" at the moment the call
 \* was built; only that query's node TEST is used (sibling scan), h = [has, ax, nt], has = FALSE: every node counts
@@ -91,6 +92,7 @@ B2Steps(steps, n, abs, smart) ==
 
 B2ExprH(e, smart, h) ==
     CASE e.t = "path"  -> B2Steps(e.steps, Len(e.steps), e.abs, smart)
+      [] e.t = "union" -> QUnion(B2ExprH(e.l, FALSE, h), B2ExprH(e.r, FALSE, h))
       [] e.t = "num"   -> QConst([k |-> "n", v |-> e.v.n])          \* integer literals only
       [] e.t = "lit"   -> QConst([k |-> "s", v |-> e.s])
       [] e.t = "call"  -> IF e.f = "not" THEN QNot(B2ExprH(e.args[1], FALSE, h))       \* not(), position(), last() in this fragment
@@ -114,7 +116,7 @@ Base2 == [active |-> FALSE, node |-> 0, first |-> FALSE, level |-> 0, table |-> 
 RECURSIVE Init2(_)
 Init2(q) ==
     CASE q.t \in {"ctx", "abs", "const", "fn"} -> Base2
-      [] q.t = "numeric"     -> Base2 @@ [l |-> Init2(q.l), r |-> Init2(q.r)]
+      [] q.t \in {"numeric", "union"} -> Base2 @@ [l |-> Init2(q.l), r |-> Init2(q.r)]
       [] q.t \in AxisKinds   -> [Base2 EXCEPT !.node = 0] @@ [in |-> Init2(q.in)]
       [] q.t = "filter"      -> Base2 @@ [in |-> Init2(q.in), pred |-> Init2(q.pred)]
       [] q.t = "merge"       -> Base2 @@ [in |-> Init2(q.in), child |-> Init2(q.child)]
@@ -144,7 +146,7 @@ NumRel(op, a, b) == CASE op = "=" -> a = b [] op = "!=" -> a # b [] op = "<" -> 
                       [] op = ">" -> a > b [] op = ">=" -> a >= b
 
 RECURSIVE Sel2(_, _, _, _), Ev2(_, _, _, _), DoPred(_, _, _, _, _), FollLoop2(_, _, _, _), PrecLoop2(_, _, _, _),
-          DodLoop2(_, _, _, _, _, _), Drain2(_, _, _, _, _), CmpLoop(_, _, _, _, _, _, _), PrecNextRoot2(_, _, _, _)
+          DodLoop2(_, _, _, _, _, _), Drain2(_, _, _, _, _), CmpLoop(_, _, _, _, _, _, _), PrecNextRoot2(_, _, _, _), UDrain(_, _, _, _, _, _)
 
 \* preceding (non-sibling): like PrecNextRoot but the position counter restarts when climbing
 PrecNextRoot2(d, node, ops, posit) ==
@@ -225,6 +227,9 @@ Ev2(q, st, g, x) ==
       [] q.t = "group"  -> LET i == Ev2(q.in, st.in, g, x)      \* the position count restarts (F-C03-1)
                            IN V2(i.v, IF "group-posit-not-reset" \in Deviations THEN [st EXCEPT !.in = i.st]
                                       ELSE [st EXCEPT !.in = i.st, !.posit = 0], i.ops)
+      [] q.t = "union"  -> LET m == Ev2(q.l, st.l, g, x)
+                               n == Ev2(q.r, st.r, g, [x EXCEPT !.ops = m.ops])
+                           IN V2(IsQ, [st EXCEPT !.active = FALSE, !.l = m.st, !.r = n.st], n.ops)
       [] q.t = "const"  -> V2(q.v, st, x.ops)
       [] q.t = "fn" ->
            IF q.f = "position"
@@ -272,19 +277,37 @@ Ev2(q, st, g, x) ==
                        right == IF n.v.k = "q" THEN rb.n # 0 ELSE n.v.v
                    IN V2([k |-> "b", v |-> right], [s1 EXCEPT !.r = rb.st], rb.ops)
 
+\* unionQuery: drain one operand; a node is kept when its identity KEY (getHashCode, XHash.tla) is new.
+\* acc = [list, keys]; the hash is computed on a copy of the delivered navigator (same movement log)
+HashDev == Deviations \cap {"name-first", "no-prefix"}
+UDrain(q, st, g, x, list, keys) ==
+    LET r == Sel2(q, st, g, x)
+    IN IF r.n = 0 THEN [st |-> r.st, ops |-> r.ops, list |-> list, keys |-> keys]
+       ELSE LET k == x.kk[r.n]
+                o2 == r.ops \o HashOps(g.d, r.n)
+            IN IF k \in keys THEN UDrain(q, r.st, g, [x EXCEPT !.ops = o2], list, keys)
+               ELSE UDrain(q, r.st, g, [x EXCEPT !.ops = o2], Append(list, r.n), keys \cup {k})
+
 \* filterQuery.do with the context cursor on the candidate: [ok, st (of the predicate), ops]
 DoPred(q, st, g, cand, x) ==
-    LET pv == Ev2(q.pred, st.pred, g, [c |-> cand, ops |-> x.ops])
+    LET pv == Ev2(q.pred, st.pred, g, [x EXCEPT !.c = cand])
     IN CASE pv.v.k = "b" -> [ok |-> pv.v.v, pst |-> pv.st, ops |-> pv.ops]
          [] pv.v.k = "s" -> [ok |-> pv.v.v # "", pst |-> pv.st, ops |-> pv.ops]
          [] pv.v.k = "n" -> [ok |-> pv.v.v = PosOf(q.in, st.in), pst |-> pv.st, ops |-> pv.ops]
-         [] pv.v.k = "q" -> LET r == Sel2(q.pred, pv.st, g, [c |-> cand, ops |-> pv.ops])
+         [] pv.v.k = "q" -> LET r == Sel2(q.pred, pv.st, g, [x EXCEPT !.c = cand, !.ops = pv.ops])
                             IN [ok |-> r.n # 0, pst |-> r.st, ops |-> r.ops]
          [] OTHER -> [ok |-> FALSE, pst |-> pv.st, ops |-> pv.ops]
 
 Sel2(q, st, g, x) ==
     CASE q.t = "ctx" -> IF st.count > 0 THEN R2(0, st, x.ops) ELSE R2(x.c, [st EXCEPT !.count = 1], x.ops)
       [] q.t = "abs" -> IF st.count > 0 THEN R2(0, st, x.ops) ELSE R2(1, [st EXCEPT !.count = 1], Append(x.ops, Mv("root", x.c, 1)))
+      [] q.t = "union" ->     \* both operands are drained on the first call (the context cursor is put back in between)
+           IF ~st.active
+           THEN LET a == UDrain(q.l, st.l, g, x, <<>>, {})
+                    b == UDrain(q.r, st.r, g, [x EXCEPT !.ops = a.ops], a.list, a.keys)
+                IN Sel2(q, [st EXCEPT !.active = TRUE, !.l = a.st, !.r = b.st, !.list = b.list, !.idx = 0], g, [x EXCEPT !.ops = b.ops])
+           ELSE IF st.idx >= Len(st.list) THEN R2(0, st, x.ops)
+                ELSE R2(st.list[st.idx + 1], [st EXCEPT !.idx = @ + 1], x.ops)
       [] q.t \in {"child", "attr", "anc", "desc", "foll", "prec"} ->
            IF ~st.active
            THEN LET r == Sel2(q.in, st.in, g, x)
@@ -367,7 +390,7 @@ Sel2(q, st, g, x) ==
            THEN LET r == Sel2(q.in, st.in, g, x)
                 IN IF r.n = 0 THEN R2(0, [st EXCEPT !.in = r.st], r.ops)
                    ELSE LET ev == Ev2(q.child, st.child, g, [x EXCEPT !.ops = r.ops])          \* evaluated BEFORE the cursor moves
-                            dr == Drain2(q.child, ev.st, g, [c |-> r.n, ops |-> ev.ops], <<>>)
+                            dr == Drain2(q.child, ev.st, g, [x EXCEPT !.c = r.n, !.ops = ev.ops], <<>>)
                         IN Sel2(q, [st EXCEPT !.in = r.st, !.child = dr.st, !.active = TRUE, !.list = dr.list, !.idx = 0],
                                 g, [x EXCEPT !.ops = dr.ops])
            ELSE IF st.idx < Len(st.list) THEN R2(st.list[st.idx + 1], [st EXCEPT !.idx = @ + 1], x.ops)
@@ -381,13 +404,24 @@ Sel2(q, st, g, x) ==
                 IN IF v.v.k = "b" /\ v.v.v THEN R2(x.c, [v.st EXCEPT !.done = TRUE], v.ops) ELSE R2(0, [v.st EXCEPT !.done = TRUE], v.ops)
       [] OTHER -> R2(0, st, x.ops)
 
-RECURSIVE Run2From(_, _, _, _, _, _)
-Run2From(q, st, g, c, acc, fuel) ==
-    LET r == Sel2(q, st, g, [c |-> c, ops |-> acc.ops])
+RECURSIVE Run2From(_, _, _, _, _, _, _)
+Run2From(q, st, g, c, acc, fuel, kk) ==
+    LET r == Sel2(q, st, g, [c |-> c, ops |-> acc.ops, kk |-> kk])
     IN IF r.n = 0 THEN [nodes |-> acc.nodes, ops |-> r.ops, done |-> TRUE]
        ELSE IF fuel = 0 THEN [nodes |-> Append(acc.nodes, r.n), ops |-> r.ops, done |-> FALSE]
-       ELSE Run2From(q, r.st, g, c, [nodes |-> Append(acc.nodes, r.n), ops |-> r.ops], fuel - 1)
+       ELSE Run2From(q, r.st, g, c, [nodes |-> Append(acc.nodes, r.n), ops |-> r.ops], fuel - 1, kk)
+\* kk: the identity key of every node (only unions look at it)
+RECURSIVE HasUnion(_)
+HasUnion(q) == CASE q.t = "union" -> TRUE
+                 [] q.t \in AxisKinds \/ q.t = "group" -> HasUnion(q.in)
+                 [] q.t = "filter" -> HasUnion(q.in) \/ HasUnion(q.pred)
+                 [] q.t = "merge" -> HasUnion(q.in) \/ HasUnion(q.child)
+                 [] q.t = "not" -> HasUnion(q.arg)
+                 [] q.t \in {"logical", "boolean", "numeric"} -> HasUnion(q.l) \/ HasUnion(q.r)
+                 [] OTHER -> FALSE
 RunAll2(e, g, c) ==
-    LET q == Build2(e) IN Run2From(q, Init2(q), g, c, [nodes |-> <<>>, ops |-> <<>>], 40 * Len(g.d))
+    LET q == Build2(e)
+        kk == IF HasUnion(q) THEN [n \in 1 .. Len(g.d) |-> Key(g.d, n, HashDev)] ELSE <<>>
+    IN Run2From(q, Init2(q), g, c, [nodes |-> <<>>, ops |-> <<>>], 40 * Len(g.d), kk)
 
 =============================================================================
